@@ -194,19 +194,34 @@ def theorem_blocks(vfile):
     return out
 
 
+SECTION_ONLY = re.compile(r"\b(Hypothesis|Hypotheses|Variable|Variables|Context)\b")
+ALWAYS_BAD = re.compile(
+    r"\b(Admitted|admit|Axiom|Axioms|Parameter|Parameters|Conjecture|Conjectures|Abort)\b|Unset Guard|bypass_check|"
+    r"type-in-type|impredicative-set|Admit Obligations|Unset Universe|Unset Positivity|Guard Checking|Positivity Checking|Universe Checking"
+)
+
+
 def grep_forbidden():
+    """no Admitted/admit/Axiom/Parameter/Conjecture anywhere; Variable/Hypothesis only inside a Section"""
     bad = []
     for f in coq_sources():
         src = open(f).read()
-        # strip comments (non-nested is enough for reporting; nested handled by loop)
         prev = None
         while prev != src:
             prev = src
-            src = re.sub(r"\(\*(?:(?!\(\*|\*\)).)*\*\)", " ", src, flags=re.S)
+            src = re.sub(r"\(\*(?:(?!\(\*|\*\)).)*\*\)", lambda m: "\n" * m.group(0).count("\n"), src, flags=re.S)
+        depth = 0
         for i, line in enumerate(src.split("\n")):
-            m = FORBIDDEN.search(line)
+            if re.match(r"\s*Section\s+\w+\s*\.", line):
+                depth += 1
+            elif re.match(r"\s*End\s+\w+\s*\.", line) and depth > 0:
+                depth -= 1
+            m = ALWAYS_BAD.search(line)
             if m:
                 bad.append("%s:%d: %s" % (os.path.relpath(f, ROOT), i + 1, m.group(0)))
+            m = SECTION_ONLY.search(line)
+            if m and depth == 0:
+                bad.append("%s:%d: %s outside a Section" % (os.path.relpath(f, ROOT), i + 1, m.group(0)))
     return bad
 
 
